@@ -195,6 +195,18 @@ class JointProbabilityDistribution(DiscreteFactor):
                     ).to_factor()
                     if phi_xyz * phi_z != phi_xz * phi_yz:
                         return False
+                # Pairwise independence of the members does not imply independence of the sets.
+                if len(event1) > 1 or len(event2) > 1:
+                    phi_xyz = JPD.marginal_distribution(
+                        event3 + list(event1) + list(event2), inplace=False
+                    ).to_factor()
+                    phi_xz = JPD.marginal_distribution(
+                        event3 + list(event1), inplace=False
+                    ).to_factor()
+                    phi_yz = JPD.marginal_distribution(
+                        event3 + list(event2), inplace=False
+                    ).to_factor()
+                    return phi_xyz * phi_z == phi_xz * phi_yz
                 return True
             else:
                 JPD.conditional_distribution(event3)
@@ -208,6 +220,15 @@ class JointProbabilityDistribution(DiscreteFactor):
                 variable_pair[1], inplace=False
             ):
                 return False
+        # Pairwise independence of the members does not imply independence of the sets.
+        if len(event1) > 1 or len(event2) > 1:
+            return JPD.marginal_distribution(
+                list(event1) + list(event2), inplace=False
+            ) == JPD.marginal_distribution(
+                list(event1), inplace=False
+            ) * JPD.marginal_distribution(
+                list(event2), inplace=False
+            )
         return True
 
     def get_independencies(self, condition=None):
